@@ -199,6 +199,12 @@ func rdReplay(raw json.RawMessage, idx int, tr *traceWriter) {
 	case "Binary":
 		b := make([]byte, rng.Intn(64))
 		rng.Read(b)
+		if rng.Intn(3) == 0 {
+			// bytes that LOOK like something (the signatures content sniffers know): still an opaque byte stream
+			sig := []string{"GIF89a", "\xff\xd8\xff\xe0", "\x89PNG\r\n\x1a\n", "BM", "ID3\x03", "OggS\x00", "RIFF\x24\x00\x00\x00WAVEfmt ", "%PDF-1.7",
+				"<html><body>", "<?xml version=\"1.0\"?>", "{\"a\":1}", "PK\x03\x04", "\x1f\x8b\x08", "\x00\x00\x01\x00", "\xef\xbb\xbfplain text", "\x00\x00\x00\x18ftypmp42"}[rng.Intn(16)]
+			b = append([]byte(sig), b...)
+		}
 		doRender = func(r flamego.Render) { r.Binary(c.Status, b) }
 		check = func(body []byte) { roundtrip = bytes.Equal(body, b); eqStd = roundtrip }
 	default:
